@@ -370,13 +370,17 @@ func rangeMain(args []string) {
 	}
 	// large collections with real random values; the abstract value is the
 	// rank among the distinct values (independent order) or the real bytes
-	ids8 := []string{"a", "b", "c", "d", "e", "f", "g", "h"}
+	ids8 := []string{"a", "b", "c", "d", "e", "f", "g", "h", "i", "j", "k", "l", "m", "n"}
 	for i := 0; i < *big; i++ {
 		c := gCase{Fam: "range", Pages: 6, Real: true}
 		c.KX, c.NX = allKinds()
 		c.KY, c.NY = allKinds()
 		pickImpl(&c)
 		nres := 4 + rng.Intn(5)
+		large := i%4 == 3 // a larger collection walked with a long id list and rules that leave ties
+		if large {
+			nres = 11 + rng.Intn(4)
+		}
 		type rv struct {
 			x, y any
 		}
@@ -429,6 +433,13 @@ func rangeMain(args []string) {
 		}
 		for k := 1 + rng.Intn(3); k > 0; k-- {
 			c.Rules = append(c.Rules, gRule{F: ruleNames[rng.Intn(3)], Desc: rng.Intn(2) == 0})
+		}
+		if large {
+			c.Rules = []gRule{{F: "y", Desc: rng.Intn(2) == 0}} // ties on y, no id among the rules
+			c.IDs = append([]string{"zz"}, ids8[:nres]...)
+			rng.Shuffle(len(c.IDs), func(i, j int) { c.IDs[i], c.IDs[j] = c.IDs[j], c.IDs[i] })
+			c.IDs = c.IDs[:9+rng.Intn(len(c.IDs)-9)]
+			stt.class("long-id-list")
 		}
 		c.Size = 1 + rng.Intn(4)
 		c.Pages = nres/c.Size + 2
